@@ -353,36 +353,48 @@ func checkC11(c *Ctx, r *Report) {
 		}
 		var nb, na string
 		ipArm, dnsArm := false, false
-		eachInstr(f, func(in ssa.Instruction) {
-			st, ok := in.(*ssa.Store)
-			if !ok {
-				return
-			}
-			fv, base, is := fieldOf(st.Addr)
-			if !is || !(tmplSet[base] || sameVal(base, tmplRoot)) {
-				return
-			}
-			switch fv.Name() {
-			case "NotBefore":
-				nb = atomStr(st.Val)
-			case "NotAfter":
-				na = atomStr(st.Val)
-			case "IPAddresses":
-				fs := factStrs(f, st)
-				for k := range fs {
-					if strings.HasPrefix(k, "ParseIP(") && strings.HasSuffix(k, "!=nil=true") {
-						ipArm = true
+		for _, hc := range helperContexts(f, 2) {
+			g := hc.fn
+			eachInstr(g, func(in ssa.Instruction) {
+				st, ok := in.(*ssa.Store)
+				if !ok {
+					return
+				}
+				fv, base, is := fieldOf(st.Addr)
+				if !is {
+					return
+				}
+				if g == f {
+					if !(tmplSet[base] || sameVal(base, tmplRoot)) {
+						return
+					}
+				} else {
+					// in a helper: the certificate written is the template handed in by createCert
+					prm, isP := resolveVal(base).(*ssa.Parameter)
+					if !isP {
+						return
+					}
+					a, _, okA := paramArg(prm, hc.ctx)
+					if !okA || !(tmplSet[resolveVal(a)] || sameVal(a, tmplRoot)) {
+						return
 					}
 				}
-			case "DNSNames":
-				fs := factStrs(f, st)
-				for k := range fs {
-					if strings.HasPrefix(k, "ParseIP(") && strings.HasSuffix(k, "!=nil=false") {
+				switch fv.Name() {
+				case "NotBefore":
+					nb = atomStr(st.Val)
+				case "NotAfter":
+					na = atomStr(st.Val)
+				case "IPAddresses":
+					if nn, _ := nilFacts(factStrs(g, st), "ParseIP("); nn {
+						ipArm = true
+					}
+				case "DNSNames":
+					if _, n := nilFacts(factStrs(g, st), "ParseIP("); n {
 						dnsArm = true
 					}
 				}
-			}
-		})
+			})
+		}
 		r.Check(nb == "Now()" && strings.HasPrefix(na, "Add(Now(),") && strings.Contains(na, "$hoursValid"), "C11.R1", "validity is [now, now + hoursValid]", c.Pos(f.Pos()), "NotBefore="+nb+" NotAfter="+na, "validity period is not [time.Now(), time.Now()+hoursValid·Hour]: NotBefore="+nb+" NotAfter="+na)
 		r.Check(ipArm && dnsArm, "C11.R1", "names go to IPAddresses if they parse as IP, else to DNSNames", c.Pos(f.Pos()), "both arms present under net.ParseIP", fmt.Sprintf("SAN arms missing (ip=%v dns=%v): IP-literal or DNS targets get a certificate that does not name them", ipArm, dnsArm))
 	}
@@ -395,46 +407,72 @@ func checkC11(c *Ctx, r *Report) {
 		host := "SplitHostPort($host)#0"
 		bad := []string{}
 		n := 0
-		eachCall(f, func(call ssa.CallInstruction, nme string) {
-			if strings.HasSuffix(nme, "syncmap.SyncMap).Get") || strings.HasSuffix(nme, "syncmap.SyncMap).Set") || strings.HasSuffix(nme, "syncmap.SyncMap).Delete") || strings.HasSuffix(nme, "syncmap.SyncMap).GetOrSet") {
-				n++
-				if atomStr(callArgs(call)[1]) != host {
-					bad = append(bad, nme[strings.LastIndex(nme, ".")+1:]+"("+atomStr(callArgs(call)[1])+")")
+		hcs := helperContexts(f, 2)
+		for _, hc := range hcs {
+			eachCall(hc.fn, func(call ssa.CallInstruction, nme string) {
+				if strings.HasSuffix(nme, "syncmap.SyncMap).Get") || strings.HasSuffix(nme, "syncmap.SyncMap).Set") || strings.HasSuffix(nme, "syncmap.SyncMap).Delete") || strings.HasSuffix(nme, "syncmap.SyncMap).GetOrSet") {
+					n++
+					if a := ctxAtom(callArgs(call)[1], hc.ctx); a != host {
+						bad = append(bad, nme[strings.LastIndex(nme, ".")+1:]+"("+a+")")
+					}
 				}
-			}
-			if strings.HasSuffix(nme, "PrivateCA).createCert") {
-				n++
-				if atomStr(callArgs(call)[1]) != host {
-					bad = append(bad, "createCert("+atomStr(callArgs(call)[1])+")")
+				if strings.HasSuffix(nme, "PrivateCA).createCert") {
+					n++
+					if a := ctxAtom(callArgs(call)[1], hc.ctx); a != host {
+						bad = append(bad, "createCert("+a+")")
+					}
 				}
-			}
-		})
+			})
+		}
 		r.Check(len(bad) == 0 && n >= 4, "C11.R2", "the same host names the certificate, the cache key and the lookup", c.InstrPos(sp), "SplitHostPort(host) result used for Get/Set/Delete/createCert", "host used inconsistently: "+strings.Join(bad, ", "))
-		// R3
+		// R3: wherever the certificate found in the map is handed back, it is on the not-expired edge
 		nRet := 0
-		eachInstr(f, func(in ssa.Instruction) {
-			ret, ok := in.(*ssa.Return)
-			if !ok || isRecoverReturn(ret) {
-				return
+		var del *ssa.Call
+		var delCtx dctx
+		for _, hc := range hcs {
+			g := hc.fn
+			if d := findCall(g, "(*reservoir/utils/syncmap.SyncMap).Delete"); d != nil && del == nil {
+				del, delCtx = d, hc.ctx
 			}
-			vals := retVals(ret)
-			if !strings.HasPrefix(atomStr(vals[0]), "Get($ca.certs,") {
-				return
-			}
-			nRet++
-			good := false
-			for _, fc := range factsAt(f, ret) {
-				if exp, known := expiredWhenTrueF(fc.cond, "NotAfter"); known && exp != fc.truth {
-					good = true
+			eachInstr(g, func(in ssa.Instruction) {
+				ret, ok := in.(*ssa.Return)
+				if !ok || isRecoverReturn(ret) {
+					return
 				}
-			}
-			r.Check(good, "C11.R3", "a cached certificate is reused only while valid", c.InstrPos(ret), "return is on the not-expired edge of Leaf.NotAfter vs now", "a cached certificate is returned without (or on the wrong side of) an expiry test: clients are handed an expired certificate")
-		})
+				vals := retVals(ret)
+				if len(vals) == 0 || !strings.HasPrefix(atomStr(vals[0]), "Get($ca.certs,") {
+					return
+				}
+				nRet++
+				good := false
+				for _, fc := range factsAt(g, ret) {
+					if exp, known := expiredWhenTrueF(fc.cond, "NotAfter"); known && exp != fc.truth {
+						good = true
+					}
+				}
+				r.Check(good, "C11.R3", "a cached certificate is reused only while valid", c.InstrPos(ret), "return is on the not-expired edge of Leaf.NotAfter vs now", "a cached certificate is returned without (or on the wrong side of) an expiry test: clients are handed an expired certificate")
+			})
+		}
 		r.Floor("C11.R3", nRet, 1, "returns of a cached certificate")
 		// expired edge reaches createCert
-		del := findCall(f, "(*reservoir/utils/syncmap.SyncMap).Delete")
 		cr := findCall(f, "(*"+certsPkg+".PrivateCA).createCert")
-		r.Check(del != nil && cr != nil && reachableInstr(del, cr, nil), "C11.R3", "an expired certificate is replaced", c.Pos(f.Pos()), "expired edge deletes and falls through to createCert", "the expired branch does not lead to a new certificate")
+		okRepl := false
+		if del != nil && cr != nil {
+			if len(delCtx) == 0 {
+				okRepl = reachableInstr(del, cr, nil)
+			} else {
+				// the delete sits in a helper: after it the helper reports "nothing cached" and the caller goes on to issue
+				okRepl = reachableInstr(delCtx[0], cr, nil)
+				for _, e := range walkFrom(pos{del.Block(), 0}, nil, isReturn, nil) {
+					if ret := e.(*ssa.Return); reachableInstr(del, ret, nil) && !isRecoverReturn(ret) {
+						if vals := retVals(ret); len(vals) > 0 && strings.HasPrefix(atomStr(vals[0]), "Get($ca.certs,") {
+							okRepl = false // the expired certificate itself is handed back
+						}
+					}
+				}
+			}
+		}
+		r.Check(okRepl, "C11.R3", "an expired certificate is replaced", c.Pos(f.Pos()), "expired edge deletes and falls through to createCert", "the expired branch does not lead to a new certificate")
 		// stored certificate is the one returned
 		set := findCall(f, "(*reservoir/utils/syncmap.SyncMap).Set")
 		okSet := false
@@ -455,20 +493,22 @@ func checkC11(c *Ctx, r *Report) {
 		r.Check(ok, "C11.R2", "the certificate is requested for the CONNECT target", c.Pos(f.Pos()), "GetCertForHost(proxyReq.Host)", "GetCertForHost is not called with the CONNECT request's Host")
 		// tls.Config.Certificates = []tls.Certificate{*tlsCert}
 		okCfg := false
-		eachInstr(f, func(in ssa.Instruction) {
-			st, isSt := in.(*ssa.Store)
-			if !isSt || gc == nil {
-				return
-			}
-			if fv, _, is := fieldOf(st.Addr); is && fv.Name() == "Certificates" {
-				if derivesFrom(st.Val, func(v ssa.Value) bool {
-					e, isE := v.(*ssa.Extract)
-					return isE && e.Tuple == ssa.Value(gc) && e.Index == 0
-				}) {
-					okCfg = true
+		for _, hc := range helperContexts(f, 2) {
+			eachInstr(hc.fn, func(in ssa.Instruction) {
+				st, isSt := in.(*ssa.Store)
+				if !isSt || gc == nil {
+					return
 				}
-			}
-		})
+				if fv, _, is := fieldOf(st.Addr); is && fv.Name() == "Certificates" {
+					if derivesFromDeep(st.Val, hc.ctx, func(v ssa.Value, _ dctx) bool {
+						e, isE := v.(*ssa.Extract)
+						return isE && e.Tuple == ssa.Value(gc) && e.Index == 0
+					}) {
+						okCfg = true
+					}
+				}
+			})
+		}
 		r.Check(okCfg, "C11.R2", "the TLS server presents the certificate obtained for this host", c.Pos(f.Pos()), "tls.Config.Certificates = {*cert}", "tls.Config.Certificates is not built from the certificate returned by GetCertForHost")
 	}
 }
